@@ -527,7 +527,8 @@ func StringDocs() []string {
 // refer to documents by index).
 func ExtraDocs() []string {
 	out := append(append(NumberDocs(), MemberDocs()...), StringDocs()...)
-	return append(append(out, NestedKeyDocs()...), ClosureDocs()...)
+	out = append(append(out, NestedKeyDocs()...), ClosureDocs()...)
+	return append(append(append(out, CaseKeyDocs()...), EscapedKeyDocs()...), AffixDocs()...)
 }
 
 // NestedKeyDocs: foreign members whose values hold reserved key names
@@ -614,6 +615,88 @@ func ClosureDocs() []string {
 					out = append(out, Obj("GeometryCollection", `"geometries":[`+Obj("MultiPolygon", `"coordinates":[[`+outer+`,`+ring+`]]`)+`]`))
 				}
 			}
+		}
+	}
+	return out
+}
+
+// CaseKeyDocs: foreign members whose names differ from a reserved name only
+// in letter case (Type, TYPE, tYPE, ...), before and after the real member,
+// on every host object.
+func CaseKeyDocs() []string {
+	reserved := []string{"type", "coordinates", "geometry", "geometries", "features", "properties", "id", "bbox"}
+	variants := func(k string) []string {
+		up := strings.ToUpper(k)
+		return []string{strings.ToUpper(k[:1]) + k[1:], up, k[:1] + up[1:], k[:len(k)-1] + up[len(k)-1:]}
+	}
+	pt := Obj("Point", `"coordinates":[102,0.5]`)
+	var out []string
+	for _, k := range reserved {
+		for _, v := range variants(k) {
+			for _, val := range []string{`"survey"`, `[1,2,3]`, `{"epsg":4326}`, `null`} {
+				m := `"` + v + `":` + val
+				out = append(out,
+					`{`+m+`,"type":"Point","coordinates":[1,2]}`,
+					`{"type":"LineString",`+m+`,"coordinates":[[1,2],[3,4]]}`,
+					Obj("Polygon", `"coordinates":[[[0,0],[4,0],[4,4],[0,0]]]`, m),
+					Obj("Feature", `"geometry":`+Obj("Point", `"coordinates":[1,2]`, m), `"properties":{"name":"a"}`, m),
+					`{`+m+`,"type":"Feature","geometry":`+pt+`}`,
+					Obj("GeometryCollection", `"geometries":[`+pt+`]`, m),
+					Obj("FeatureCollection", `"features":[`+Obj("Feature", `"geometry":`+pt, `"properties":null`, m)+`]`, m),
+				)
+			}
+		}
+	}
+	return out
+}
+
+// EscapedKeyDocs: a reserved member name spelled with a \u escape, alone (it
+// is the member) and next to the plainly spelled member (duplicate: the last
+// one counts), with conflicting values.
+func EscapedKeyDocs() []string {
+	esc := func(k string, i int) string {
+		return k[:i] + fmt.Sprintf(`\u%04x`, k[i]) + k[i+1:]
+	}
+	var out []string
+	for _, i := range []int{0, 1} {
+		ty, co, ge, gs, fe := `"`+esc("type", i)+`"`, `"`+esc("coordinates", i)+`"`, `"`+esc("geometry", i)+`"`, `"`+esc("geometries", i)+`"`, `"`+esc("features", i)+`"`
+		out = append(out,
+			`{`+ty+`:"Point","coordinates":[1,2]}`,
+			`{`+ty+`:"Polygon","type":"Point","coordinates":[1,2]}`,
+			`{"type":"Point",`+ty+`:"LineString","coordinates":[1,2]}`,
+			`{"type":"Point",`+co+`:[1,2]}`,
+			`{"type":"Point",`+co+`:[[[9,9]]],"coordinates":[1,2]}`,
+			`{"type":"Point","coordinates":[1,2],`+co+`:[3,4]}`,
+			`{"type":"LineString","coordinates":[[1,2],[3,4]],`+ty+`:"Point"}`,
+			`{"type":"Feature",`+ge+`:{"type":"Point","coordinates":[1,2]},"properties":{}}`,
+			`{"type":"Feature","geometry":{`+ty+`:"Polygon","type":"Point","coordinates":[1,2]},`+ge+`:null,"properties":{}}`,
+			`{"type":"Feature",`+ge+`:{"type":"LineString","coordinates":[[0,0],[1,1]]},"geometry":{"type":"Point","coordinates":[1,2]}}`,
+			`{"type":"GeometryCollection",`+gs+`:[{"type":"Point","coordinates":[1,2]}]}`,
+			`{"type":"GeometryCollection","geometries":[],`+gs+`:[{"type":"Point","coordinates":[1,2]}]}`,
+			`{"type":"FeatureCollection",`+fe+`:[],"features":[{"type":"Feature","geometry":{"type":"Point","coordinates":[1,2]},"properties":{}}]}`,
+		)
+	}
+	return out
+}
+
+// AffixDocs: a well-formed document of each type with every single byte as a
+// prefix and as a suffix, and the usual multi-byte marks (UTF-8 / UTF-16
+// byte order marks, NEL, NBSP, U+2028) before and after it.
+func AffixDocs() []string {
+	bases := []string{
+		Obj("Point", `"coordinates":[1,2]`),
+		Obj("LineString", `"coordinates":[[0,0],[1,1]]`),
+		Obj("Feature", `"geometry":`+Obj("Polygon", `"coordinates":[[[0,0],[4,0],[4,4],[0,0]]]`), `"properties":{}`),
+		Obj("FeatureCollection", `"features":[`+Obj("Feature", `"geometry":`+Obj("Point", `"coordinates":[1,2]`), `"properties":null`)+`]`),
+	}
+	marks := []string{"\xef\xbb\xbf", "\xfe\xff", "\xff\xfe", "\xc2\x85", "\xc2\xa0", "\xe2\x80\xa8", "\xe2\x80\x8b", "\x00\x00", "\xef\xbb\xbf \n", " \xef\xbb\xbf"}
+	var out []string
+	for _, b := range bases {
+		for c := 0; c < 256; c++ {
+			out = append(out, string([]byte{byte(c)})+b, b+string([]byte{byte(c)}))
+		}
+		for _, m := range marks {
+			out = append(out, m+b, b+m, m+" "+b, " "+b+" "+m)
 		}
 	}
 	return out
